@@ -139,13 +139,15 @@ class FakeIntegrator(object):
 
     def step(self, t, dt):
         self.h.log.append(('step', t, dt))
+        self.h.nsteps += 1
 
     def compute_time_step(self, dt, cfl):
+        # the stable step is a function of the *state*: after k steps it is
+        # answers[k % len]; asking twice in the same state gives the same answer
         if not self.answers:
             a = None
         else:
-            a = self.answers[self.k % len(self.answers)]
-            self.k += 1
+            a = self.answers[self.h.nsteps % len(self.answers)]
         self.h.log.append(('cts', dt, a))
         return a
 
@@ -248,6 +250,7 @@ def execute(sc, prop):
     h = H()
     h.log = []
     h.dumps = []
+    h.nsteps = 0
     integ = FakeIntegrator(h, answers)
     solver = SM.Solver(dim=1, integrator=integ, tf=tf, dt=(int(dt0) if sc.get('dt_as_int') and dt0 == int(dt0) else dt0),
                        adaptive_timestep=adaptive, n_damp=n_damp, pfreq=pfreq, output_at_times=times)
@@ -329,15 +332,28 @@ def execute(sc, prop):
         step_index = 0
         t_cur = 0.0
         last_dump = dumps_last(log)
+        cur_state = 0
+        seen_cts = False
+        if adaptive and answers:
+            if answers[0] is None:
+                probe('adaptive_none')
+            else:
+                undamped = answers[0]
         for e in log:
             kind = e[0]
+            if kind in ('step', 'dump') and adaptive and answers and cur_state != step_index:
+                # the integrator's current stable step for the state reached after step_index steps
+                while cur_state < step_index:
+                    cur_state += 1
+                    a = answers[cur_state % len(answers)]
+                    if a is None:
+                        probe('adaptive_none')
+                    else:
+                        if a > 5 * undamped or a < 0.2 * undamped:
+                            probe('adaptive_jump')
+                        undamped = a
             if kind == 'cts':
-                if e[2] is None:
-                    probe('adaptive_none')
-                else:
-                    if e[2] > 5 * undamped or e[2] < 0.2 * undamped:
-                        probe('adaptive_jump')
-                    undamped = e[2]
+                seen_cts = True
             elif kind == 'pre':
                 pre_seen.append(e[1])
             elif kind == 'post':
@@ -399,9 +415,11 @@ def execute(sc, prop):
                 clipped_for_tf = (td + nominal > tf - tol(k + 1))
                 if not is_last_dump and not clipped_for_tf:
                     rd = data.get('dt')
-                    if rd is None or abs(rd - undamped) > 1e-9 * undamped:
+                    # the initial dump is written before the integrator is first asked: the given dt
+                    ref = float(dt0) if (k == 0 and not seen_cts) else undamped
+                    if rd is None or abs(rd - ref) > 1e-9 * ref:
                         violate('recorded-dt-not-nominal',
-                                'dump at t=%r count=%d records dt=%r but the nominal (undamped) step is %r' % (td, cd, rd, undamped))
+                                'dump at t=%r count=%d records dt=%r but the nominal (undamped) step is %r' % (td, cd, rd, ref))
                 if abs(data.get('t', td) - td) > 0 or data.get('count') != cd:
                     violate('solver-data', 'dump records %r at t=%r count=%d' % (data, td, cd))
         if step_index > 0 and post_seen != list(range(n_post)):
